@@ -244,6 +244,15 @@ def eff_resnorm(cfg, j, ord_):
 
 
 # -------------------------------------------------------------------- running ---
+def clean_trace(tr):
+    """the eager loop prints the state once more when it breaks; fields it did not recompute in
+    that iteration are stale copies of the previous entry -> blank them"""
+    if len(tr) >= 2:
+        a, b = tr[-2], tr[-1]
+        tr[-1] = (b[0],) + tuple(None if (y is not None and x == y) else y for x, y in zip(a[1:], b[1:]))
+    return tr
+
+
 def run_eager(ck, s, lay, A, j, x0, cfg, name="E", public=False, maxiter=None, miniter=None):
     st = ck.state
     jnp, cgm = st["jnp"], st["cgm"]
@@ -272,9 +281,9 @@ def run_eager(ck, s, lay, A, j, x0, cfg, name="E", public=False, maxiter=None, m
                 ck.violation("cg-eager:success-flag", "CGResults.success != (info == 0)",
                              info=int(info))
     except ValueError as e:
-        return dict(exc=str(e)[:80], trace=st["trace"].pop("E", []))
+        return dict(exc=str(e)[:80], trace=clean_trace(st["trace"].pop("E", [])))
     return dict(x=lay.flat_np(x), info=int(info), nit=int(nit), exc=None,
-                trace=st["trace"].pop("E", []))
+                trace=clean_trace(st["trace"].pop("E", [])))
 
 
 def run_static(ck, s, lay, A, j, x0, cfg, maxiter=None, miniter=None):
@@ -413,7 +422,7 @@ def judge_hpd(ck, tag, res, A, j, x0, xprev, cfg, resn, ord_, n, tie):
     return True
 
 
-def compare(ck, eg, sg, x0v, cfg, resn, pert, label="eager-vs-static"):
+def compare(ck, eg, sg, x0v, cfg, resn, pert, mi, label="eager-vs-static"):
     """eager vs compiled: same info, nit and x.  CG amplifies rounding differences between two
     executions (strongly once orthogonality is lost), so the comparison is calibrated by the real
     solver itself: ``pert`` is the eager run with the right hand side perturbed by 1e-14 relative.
@@ -442,7 +451,10 @@ def compare(ck, eg, sg, x0v, cfg, resn, pert, label="eager-vs-static"):
     ck.hit("eager_static_comparisons")
     sc = np.abs(eg["x"]).max() + np.abs(x0v).max() + 1e-300
     d = float(np.abs(eg["x"] - sg["x"]).max())
-    floor = eg.get("tiny") or sg.get("tiny") or floor_hit(eg["trace"]) or floor_hit(sg["trace"])
+    # an exit *before* miniter can only be the 'gamma = 0' exit (exact solve): whether the
+    # recursively updated residual becomes exactly zero is decided at rounding level
+    floor = (eg.get("tiny") or sg.get("tiny") or floor_hit(eg["trace"]) or floor_hit(sg["trace"])) \
+        and min(eg["nit"], sg["nit"]) < mi
     if not floor:
         if eg["info"] != sg["info"]:
             mx = cfg.get("maxiter")
@@ -554,7 +566,7 @@ def _case(ck, i):
         if d2["info"] >= 0:
             compare(ck, dict(sg), d2, x0v, cfg, resn, pert if stable and sg["nit"] == eg.get("nit")
                     and sg["info"] == eg.get("info") else dict(exc="unstable"),
-                    label="static-jit-vs-direct")
+                    default_miniter(cfg, n), label="static-jit-vs-direct")
 
     nontrivial = False
     clean = True
@@ -587,7 +599,7 @@ def _case(ck, i):
         if at_limit:
             ck.hit("at_limit_cases")
         if clean:
-            compare(ck, eg, sg, x0v, cfg, resn, pert)
+            compare(ck, eg, sg, x0v, cfg, resn, pert, default_miniter(cfg, n))
             nontrivial = nit_e >= 2 or at_limit
     else:
         nontrivial = True
@@ -621,7 +633,7 @@ def _case(ck, i):
                                      "eager raised != compiled returned info=-1 on an indefinite system",
                                      eager_exc=eg["exc"], static_info=sg["info"])
                 elif not e_fail:
-                    compare(ck, eg, sg, x0v, cfg, resn, pert)
+                    compare(ck, eg, sg, x0v, cfg, resn, pert, default_miniter(cfg, n))
         else:
             for tag, res in (("eager", eg), ("static", sg)):
                 if res["exc"] is not None or res["info"] < 0:
@@ -656,5 +668,5 @@ def _case(ck, i):
                                      info=res["info"], nit=res["nit"])
                         clean = False
             if clean:
-                compare(ck, eg, sg, x0v, cfg, resn, pert)
+                compare(ck, eg, sg, x0v, cfg, resn, pert, default_miniter(cfg, n))
     ck.note(desc, nontrivial=nontrivial, klass=klass)
